@@ -254,7 +254,7 @@ class ZNp:
         return EmptyArr() if n == 0 else OPAQUE
 
     def asarray(self, x, *a, **k):
-        if isinstance(x, (SensorIndex, Bag, EmptyArr)):
+        if isinstance(x, (SensorIndex, Bag, EmptyArr, TimeIndex)):
             return x
         return OPAQUE
 
@@ -663,14 +663,20 @@ def _sensors(py, sensor_times, kinds=("Position", "NedVelocity", "BodyVelocity")
         times = np.asarray(times, dtype=float)
         n = len(times)
         kind = kinds[k % len(kinds)]
+        # how the caller happens to STORE a table is not part of the contract: whole-second stamps come as an integer index,
+        # every other table has its rows newest-first (labelled data; the filters sort the union of stamps themselves)
+        if n and np.all(times == np.round(times)):
+            times = times.astype(np.int64)
+        if k % 2 == 1 and n > 1:
+            times = times[::-1]
         if kind == "Position":
-            d = pd.DataFrame(dict(lat=55.0 + 1e-6 * np.arange(n), lon=37.0 + 0 * times, alt=150.0 + 0 * times), index=times)
+            d = pd.DataFrame(dict(lat=55.0 + 1e-6 * np.arange(n), lon=37.0 + 0.0 * times, alt=150.0 + 0.0 * times), index=times)
             out.append(M.Position(d, 3.0))
         elif kind == "NedVelocity":
-            d = pd.DataFrame(dict(VN=0.01 + 0 * times, VE=0 * times, VD=0 * times), index=times)
+            d = pd.DataFrame(dict(VN=0.01 + 0.0 * times, VE=0.0 * times, VD=0.0 * times), index=times)
             out.append(M.NedVelocity(d, 0.3))
         else:
-            d = pd.DataFrame(dict(VX=0 * times, VY=0.01 + 0 * times, VZ=0 * times), index=times)
+            d = pd.DataFrame(dict(VX=0.0 * times, VY=0.01 + 0.0 * times, VZ=0.0 * times), index=times)
             out.append(M.BodyVelocity(d, 0.3))
     return out
 
